@@ -60,6 +60,18 @@ fn diag_class(d: &str, emitted: &str) -> String {
             return "template-argument-ambiguity".into();
         }
     }
+    // the same reading produces other messages too (wrong element / argument counts, unknown overloads ...): it is that defect,
+    // and only that, if the text is accepted once the `> (` of the located line can no longer be read as the end of a template
+    // argument list (a unary plus in front of the parenthesis changes nothing else)
+    if let Some(l) = d.lines().nth(1) {
+        if template_like(l) && emitted.matches(l).count() == 1 {
+            let cured_line = l.replace(" > (", " > +(");
+            let cured = emitted.replacen(l, &cured_line, 1);
+            if let Outcome::Ok(_) = rs::compile_text(&cured, &Opts::new(Tgt::Dx, Mode::NoPipeline)) {
+                return "template-argument-ambiguity".into();
+            }
+        }
+    }
     let msg = first.split("error:").nth(1).unwrap_or(first).trim();
     let mut out = String::new();
     for c in msg.chars() {
